@@ -40,6 +40,7 @@ type minst struct {
 	recDirty bool   // a stack exhaustion ran in this instance: rec must be re-read (and have grown)
 	recDelta uint64 // recursion steps observed in the current step
 	peer     int    // index of the instance whose run is imported; -1 = itself
+	name     string
 }
 
 type model struct {
@@ -52,12 +53,16 @@ type model struct {
 	propagated int
 	crossInst  int
 	onClosed   int // API-level calls that ran on an already closed instance
+	viaTable   int // host functions reached with call_indirect
+	// trace lists, in order, every call of one of the harness' host functions together with the
+	// module the host function must have been given: the instance whose code made the call
+	trace []string
 }
 
 func newModel(n int) *model {
 	m := &model{nmain: n}
 	for i := 0; i < n; i++ {
-		m.insts = append(m.insts, &minst{peer: i - 1})
+		m.insts = append(m.insts, &minst{peer: i - 1, name: fmt.Sprintf("m%d", i)})
 	}
 	return m
 }
@@ -99,18 +104,35 @@ func (m *model) exec(i int, script uint64, depth, hdepth int) (uint32, *failure)
 	if t, ok := trapText[op]; ok {
 		return 0, &failure{Kind: "trap", Detail: t}
 	}
+	if op >= 0x10+opViaTable && op < 0x20+opViaTable {
+		// the same host function, reached through the table: nothing else changes
+		op -= opViaTable
+		m.viaTable++
+	}
+	saw := func(fn string) { m.trace = append(m.trace, fn+":"+in.name) }
 	switch {
 	case op >= opHostPanic && op < opHostPanic+nPanicKinds:
+		saw("hp")
 		return 0, &failure{Kind: "panic", Panic: int(op - opHostPanic)}
-	case op == opProcExit, op == opCloseNoRet:
+	case op == opProcExit:
 		m.close(i, code)
 		return 0, &failure{Kind: "exit", Code: code}
+	case op == opCloseNoRet:
+		saw("hclose")
+		m.close(i, code)
+		return 0, &failure{Kind: "exit", Code: code}
+	case op == opPeek:
+		saw("peek")
+		in.log = append(in.log, uint32(len(in.log)))
+		return uint32(in.cnt), nil
 	case op == opCloseCont:
+		saw("hclose")
 		m.close(i, code)
 		in.cnt += 10
 		in.log = append(in.log, 0xCC000000)
 		return uint32(in.cnt), nil
 	case op == opCloseTrap:
+		saw("hclose")
 		m.close(i, code)
 		return 0, &failure{Kind: "trap", Detail: "unreachable"}
 	case op >= opRec && op < opRec+nRecKinds:
@@ -133,6 +155,10 @@ func (m *model) exec(i int, script uint64, depth, hdepth int) (uint32, *failure)
 		r, f = m.exec(p, rest, depth+1, hdepth)
 	case op&opCbMask == opCallback:
 		t, mode := int(op>>1)&3, op&1
+		if op&opCbTable != 0 {
+			m.viaTable++
+		}
+		saw("cb")
 		if t == 3 || t >= m.nmain {
 			t = i
 		}
@@ -171,13 +197,21 @@ func describeOps(ops []int) string {
 	var parts []string
 	for k := 0; k < len(ops); k++ {
 		op := byte(ops[k])
+		via := ""
+		if op >= 0x10+opViaTable && op < 0x20+opViaTable {
+			op -= opViaTable
+			via = "[via table]"
+		}
+		if op&opCbMask == opCallback && op&opCbTable != 0 {
+			via = "[via table]"
+		}
 		switch {
 		case op == opLeaf:
 			parts = append(parts, "ok")
 		case trapText[op] != "":
 			parts = append(parts, fmt.Sprintf("trap#%d(%s)", op, trapText[op]))
 		case op >= opHostPanic && op < opHostPanic+nPanicKinds:
-			parts = append(parts, "host-panic("+panicNames[op-opHostPanic]+")")
+			parts = append(parts, "host-panic("+panicNames[op-opHostPanic]+")"+via)
 		case op == opProcExit || op == opCloseCont || op == opCloseTrap || op == opCloseNoRet:
 			c := byte(0)
 			if k+1 < len(ops) {
@@ -185,7 +219,9 @@ func describeOps(ops []int) string {
 				k++
 			}
 			name := map[byte]string{opProcExit: "proc_exit", opCloseCont: "host-close-then-complete", opCloseTrap: "host-close-then-trap", opCloseNoRet: "host-close-and-panic-exit"}[op]
-			parts = append(parts, fmt.Sprintf("%s(%d)", name, exitCodeOf(c)))
+			parts = append(parts, fmt.Sprintf("%s(%d)%s", name, exitCodeOf(c), via))
+		case op == opPeek:
+			parts = append(parts, "host-reads-caller-memory"+via)
 		case op == opNestLocal:
 			parts = append(parts, "call-local>")
 		case op == opNestPeer:
@@ -203,7 +239,7 @@ func describeOps(ops []int) string {
 			if (op>>1)&3 == 3 {
 				t = "self"
 			}
-			parts = append(parts, fmt.Sprintf("host-callback(m%s,%s)>", t, mode))
+			parts = append(parts, fmt.Sprintf("host-callback(m%s,%s)%s>", t, mode, via))
 		default:
 			parts = append(parts, fmt.Sprintf("op%#x", op))
 		}
